@@ -136,6 +136,20 @@ pub fn check_program(prog: &Program, seed: u64, thorough: bool, rep: &mut Report
         if !validate(&mut s, rep, t, &auto, k, "compile", &ws, sweep_it) {
             continue;
         }
+        // the same automaton against the expression as the caller wrote it (SMT-LIB meaning of the construction)
+        let rb = s.run.refs[k].clone();
+        s.ctx.eng.ensure_points(&automaton_points(&auto));
+        if let Ok(db) = s.ctx.dfa(&rb) {
+            let atoms = s.ctx.atoms().clone();
+            if let Ok(snap) = observe(&auto, &atoms) {
+                rep.inc("automata_validated_against_construction");
+                if let Some(cex) = snap.diff(&db) {
+                    let wd = atoms.word(&cex);
+                    s.viol(rep, "language", "language:compile-vs-construction", format!("compile of the construction {} (term {}) accepts {} = {} but the construction's language says {}", short(&rb.show(), 160), term_text(t), show_str(&wd), snap.accepts(&cex), db.accepts(&cex)), k);
+                    continue;
+                }
+            }
+        }
         // try_compile with a sufficient bound must give an equivalent automaton
         if rng.chance(1, 3) {
             let bound = count + rng.usize(3) * 7;
